@@ -353,7 +353,7 @@ fn forged(real: Option<u64>, salt: usize) -> u64 {
 
 type Inst<'a, 'b> = InstanceState<'a, Loader<&'b [u8]>>;
 
-fn impl_step(inst: &mut Inst, op: &J, eids: &mut Vec<u64>, iids: &mut Vec<u64>) -> String {
+fn impl_step(inst: &mut Inst, op: &J, eids: &mut Vec<u64>, iids: &mut Vec<u64>, exhausted: &mut Vec<u64>) -> String {
     let mut energy = InterpreterEnergy { energy: 1 << 50 };
     let pick = |v: &Vec<u64>, i: usize| -> Option<u64> { v.get(i).copied() };
     let read_entry = |inst: &mut Inst, id: u64, size_only: bool| -> String {
@@ -421,6 +421,10 @@ fn impl_step(inst: &mut Inst, op: &J, eids: &mut Vec<u64>, iids: &mut Vec<u64>) 
                     if e != NONE && e != ERR {
                         eids.push(e);
                     }
+                    if e == NONE {
+                        // after exhaustion the key of the iterator is unspecified
+                        exhausted.push(id);
+                    }
                     format!("{:x}", e)
                 }
                 Err(_) => "error".into(),
@@ -439,7 +443,13 @@ fn impl_step(inst: &mut Inst, op: &J, eids: &mut Vec<u64>, iids: &mut Vec<u64>) 
                 }
                 let mut buf = vec![0u8; n as usize];
                 let got = inst.verif_iterator_key_read(id, &mut buf, 0);
-                if got != n { format!("KEY-LEN-{}-{}", got, n) } else { hex(&buf) }
+                if got != n {
+                    format!("KEY-LEN-{}-{}", got, n)
+                } else if exhausted.contains(&id) {
+                    "?".into()
+                } else {
+                    hex(&buf)
+                }
             }
             None => "skip".into(),
         },
@@ -487,6 +497,7 @@ fn segment(
     iids: &mut Vec<u64>,
     reids: &mut Vec<u64>,
     riids: &mut Vec<u64>,
+    exhausted: &mut Vec<u64>,
 ) -> (SegEnd, bool) {
     let store: &[u8] = &[];
     let mut loader = Loader::new(store);
@@ -514,10 +525,9 @@ fn segment(
                 return (SegEnd::Done(commit), inst.verif_changed());
             }
             _ => {
-                let got = impl_step(&mut inst, &op, eids, iids);
+                let got = impl_step(&mut inst, &op, eids, iids, exhausted);
                 let exp = ri.step(rt, &op, reids, riids);
-                // after exhaustion the key of an iterator is unspecified
-                cx.outs.push(if exp == "?" { "?".into() } else { got });
+                cx.outs.push(got);
                 cx.exp.push(exp);
             }
         }
@@ -527,11 +537,11 @@ fn segment(
 /// A whole call (outermost or re-entrant). Returns (commit, changed).
 fn run_call(st: &mut MutableState, cx: &mut Ctx, rt: &mut RTrie, depth: usize) -> (bool, bool) {
     let mut ri = RInst::default();
-    let (mut eids, mut iids, mut reids, mut riids) = (vec![], vec![], vec![], vec![]);
+    let (mut eids, mut iids, mut reids, mut riids, mut exhausted) = (vec![], vec![], vec![], vec![], vec![]);
     let mut resume: Option<(VerifSuspended, bool)> = None;
     let mut changed_any = false;
     loop {
-        let (end, changed) = segment(st, resume.take(), cx, rt, &mut ri, &mut eids, &mut iids, &mut reids, &mut riids);
+        let (end, changed) = segment(st, resume.take(), cx, rt, &mut ri, &mut eids, &mut iids, &mut reids, &mut riids, &mut exhausted);
         changed_any |= changed;
         match end {
             SegEnd::Done(commit) => return (commit, changed_any),
@@ -540,7 +550,7 @@ fn run_call(st: &mut MutableState, cx: &mut Ctx, rt: &mut RTrie, depth: usize) -
                 let mut loader = Loader::new(store);
                 let mut st2 = st.make_fresh_generation(&mut loader);
                 let mut rt2 = RTrie { map: rt.map.clone(), ents: rt.ents.clone(), locks: vec![] };
-                let (commit, inner_changed) = if depth < 3 { run_call(&mut st2, cx, &mut rt2, depth + 1) } else { (false, false) };
+                let (commit, inner_changed) = run_call(&mut st2, cx, &mut rt2, depth + 1);
                 let updated = commit && inner_changed;
                 if updated {
                     *st = st2;
